@@ -54,6 +54,16 @@ def plan_cfgs(case, tier, rnd):
             ps = "(" + ",".join(map(str, perm)) + ")"
             plan = ", ".join("%d:%s" % (v, ps) for v in range(nver))
             cfgs.append(req.Cfg("plan l%d %s" % (i, plan), text_fn=AddPlan(i, plan)))
+        if nver > 1:
+            # versions with different orders (rotations of the identity against each other)
+            ident = tuple(range(1, k + 1))
+            rots = [ident[j:] + ident[:j] for j in range(1, k)] + [tuple(reversed(ident))]
+            for rp in rots[:2 if tier == "quick" else len(rots)]:
+                for v in range(nver):
+                    plan = ", ".join("%d:(%s)" % (w, ",".join(map(str, rp if w == v else ident))) for w in range(nver))
+                    cfgs.append(req.Cfg("plan l%d %s" % (i, plan), text_fn=AddPlan(i, plan)))
+                    plan1 = "%d:(%s)" % (v, ",".join(map(str, rp)))
+                    cfgs.append(req.Cfg("plan l%d %s" % (i, plan1), text_fn=AddPlan(i, plan1)))
         if tier == "thorough" and nver > 1:
             for _ in range(4):
                 plan = ", ".join("%d:(%s)" % (v, ",".join(map(str, rnd.choice(perms)))) for v in range(nver))
